@@ -184,6 +184,39 @@ def _r082(ck, prog, cfg):
     ck.floor("R08.2" + _tag(cfg), n, 4)
 
 
+def _classify_stored(fn, b, value_operand):
+    """how the value stored at block b relates to the node clock: ('ok', why) | ('external', updated: bool)"""
+    site = (b, len(fn.blocks[b]["st"]))
+    val = src_of_operand(fn, value_operand, through_calls=(r"::clone$",))
+    if val.kind == "call" and is_callee(val.term, r"HashMap::<.*ReplicatedValue>::remove"):
+        return "ok", "put-back of the value just removed"
+    if val.kind == "call" and is_callee(val.term, r"Option::<.*ReplicatedValue>::(unwrap_or_else|unwrap_or|unwrap_or_default)\b"):
+        inner = src_of_operand(fn, val.term["args"][0])
+        if inner.kind == "call" and is_callee(inner.term, r"HashMap::<.*ReplicatedValue>::remove"):
+            return "ok", "value = removed-or-fresh local state (stamps governed by R08.2)"
+    if val.kind == "call" and is_callee(val.term, r"ReplicatedValue::(new|with_value)$"):
+        return "ok", "fresh local value"
+    local_tick = False
+    upd = False
+    for cb, ct in fn.calls():
+        if not fn.site_dominates((cb, len(fn.blocks[cb]["st"])), site) or cb == b:
+            continue
+        for ai, a in enumerate(ct["args"]):
+            s = src_of_operand(fn, a, through_calls=TRANSPARENT) if "c" not in a else None
+            if s is None or not (s.fields and s.fields[-1] == "lamport_clock"):
+                continue
+            if is_callee(ct, r"LamportClock::update$"):
+                if ai == 0 and len(ct["args"]) > 1:
+                    o = src_of_operand(fn, ct["args"][1], through_calls=TRANSPARENT)
+                    if o.fields and o.fields[-1] == "timestamp" and o.root != "self":
+                        upd = True
+            else:
+                local_tick = True
+    if local_tick:
+        return "ok", "local write: node clock ticked before the insert"
+    return "external", upd
+
+
 def _r083(ck, prog, cfg):
     n = 0
     n_ext = 0
@@ -199,45 +232,31 @@ def _r083(ck, prog, cfg):
             # receiver must be a ShardReplicaState's map
             if not _is_shard_state_map(fn, t["args"][0]):
                 continue
-            n += 1
-            site = (b, len(fn.blocks[b]["st"]))
             key = "%s:insert#%d%s" % (fn.id, _ins_ord(fn, b), _tag(cfg))
-            val = src_of_operand(fn, t["args"][2], through_calls=(r"::clone$",))
-            # (b) put-back of the removed value
-            if val.kind == "call" and is_callee(val.term, r"HashMap::<.*ReplicatedValue>::remove"):
-                ck.ok("R08.3", key, "put-back of the value just removed")
-                continue
-            # local state: the value is what this node already held (removed from the map, or freshly created)
-            if val.kind == "call" and is_callee(val.term, r"Option::<.*ReplicatedValue>::(unwrap_or_else|unwrap_or|unwrap_or_default)\b"):
-                inner = src_of_operand(fn, val.term["args"][0])
-                if inner.kind == "call" and is_callee(inner.term, r"HashMap::<.*ReplicatedValue>::remove"):
-                    ck.ok("R08.3", key, "value = removed-or-fresh local state (stamps governed by R08.2)")
+            # a helper that stores a value it was handed: the obligation moves to every call site of the helper
+            vs = src_of_operand(fn, t["args"][2], through_calls=(r"::clone$",))
+            if vs.kind == "path" and vs.local is not None and 1 < vs.local <= fn.d["argc"] and not vs.fields and fn.kind in ("fn", "method"):
+                callers = [(g, cb, ct) for g in prog.fns.values() if "/tests" not in g.file for cb, ct in g.calls() if prog.local_callee(g, ct) is fn]
+                if callers:
+                    for g, cb, ct in callers:
+                        n += 1
+                        st, info = _classify_stored(g, cb, ct["args"][vs.local - 1])
+                        ckey = "%s:via:%s%s" % (key.replace(_tag(cfg), ""), g.id.rsplit("::", 1)[-1], _tag(cfg))
+                        if st == "ok":
+                            ck.ok("R08.3", ckey, info)
+                        else:
+                            n_ext += 1
+                            ck.check(info, "R08.3", ckey,
+                                     "an externally produced value is handed to %s, which stores it into replicated_keys, without advancing the "
+                                     "node's Lamport clock past its stamp" % fn.short, g.where(ct["ln"]), detail="update dominates the call")
                     continue
-            if val.kind == "call" and is_callee(val.term, r"ReplicatedValue::(new|with_value)$"):
-                ck.ok("R08.3", key, "fresh local value")
-                continue
-            # (a) local tick path: a dominating call that receives &mut ...lamport_clock and is not update()
-            local_tick = False
-            upd = False
-            for cb, ct in fn.calls():
-                if not fn.site_dominates((cb, len(fn.blocks[cb]["st"])), site) or cb == b:
-                    continue
-                for ai, a in enumerate(ct["args"]):
-                    s = src_of_operand(fn, a, through_calls=TRANSPARENT) if "c" not in a else None
-                    if s is None or not (s.fields and s.fields[-1] == "lamport_clock"):
-                        continue
-                    if is_callee(ct, r"LamportClock::update$"):
-                        if ai == 0 and len(ct["args"]) > 1:
-                            o = src_of_operand(fn, ct["args"][1], through_calls=TRANSPARENT)
-                            if o.fields and o.fields[-1] == "timestamp" and o.root != "self":
-                                upd = True
-                    else:
-                        local_tick = True
-            if local_tick:
-                ck.ok("R08.3", key, "local write: node clock ticked before the insert")
+            n += 1
+            st, info = _classify_stored(fn, b, t["args"][2])
+            if st == "ok":
+                ck.ok("R08.3", key, info)
                 continue
             n_ext += 1
-            ck.check(upd, "R08.3", key,
+            ck.check(info, "R08.3", key,
                      "an externally produced value is stored into replicated_keys without advancing the node's Lamport clock past "
                      "its stamp: the next local write can get a smaller stamp than a value this node has already seen and lose",
                      fn.where(t["ln"]), detail="LamportClock::update(&mut clock, &value.timestamp) dominates the insert")
